@@ -12,6 +12,7 @@ from vfw import vloop, loader
 
 M = loader.asyncio_S()
 LAST_INFO = None
+RAW = None
 
 
 class Base(Exception):
@@ -123,6 +124,8 @@ def scen(delays, outs, api, only_name, alphabet, kind='coro'):
                     devs.append('yielded-before-all-finished')
     if not all(finished):
         devs.append('awaitable-skipped-or-cancelled')
+    global RAW
+    RAW = {'finish_order': finish_order, 'kinds': [which(i) for i in range(n)]}
     if not vfw.prelude.tracing():
         LAST_INFO = {'delays': list(delays), 'outcomes': [which(i) for i in range(n)], 'only': only_name, 'api': 'raise_first_exc' if api else 'gather_excs',
                  'finish_order': finish_order, 'outcome': outcome[0], 'expected': [repr(e) for e in expected],
@@ -135,9 +138,8 @@ def twin(delays, outs):
     devs = scen(delays, outs, False, 'default', ('return', 'Base', 'Sub'))
     if devs:
         return []
-    info = LAST_INFO
-    fo = info['finish_order']
-    failing = [i for i in fo if info['outcomes'][i] != 'return']
+    fo = RAW['finish_order']
+    failing = [i for i in fo if RAW['kinds'][i] != 'return']
     return ['reached'] if len(failing) >= 2 and failing != sorted(failing) else []
 
 
